@@ -1329,7 +1329,14 @@ func ruleUnregisterAndCallbacks(c *Ctx, r6, r7 string) {
 		}
 		fr1, _, _ := loadedField(first.Call.Args[0])
 		// second's registry = reverseByKey[key returned by first]
-		if lk, isL := origin(second.Call.Args[0]).(*ssa.Lookup); isL {
+		reg2 := origin(second.Call.Args[0])
+		if ex, isEx := reg2.(*ssa.Extract); isEx && ex.Index == 0 {
+			// rc, found := reverseByKey[k]
+			if l, isL := ex.Tuple.(*ssa.Lookup); isL && l.CommaOk {
+				reg2 = l
+			}
+		}
+		if lk, isL := reg2.(*ssa.Lookup); isL {
 			fr2, _, _ := loadedField(lk.X)
 			if ex, isEx := origin(lk.Index).(*ssa.Extract); isEx && ex.Tuple == ssa.Value(first) && ex.Index == 0 {
 				ok6 = fr1.Field == ro.TSHReverse && fr2.Field == ro.TSHByKey && stripConv(first.Call.Args[1]) == ssa.Value(un.Params[1]) && stripConv(second.Call.Args[1]) == ssa.Value(un.Params[1])
